@@ -28,7 +28,7 @@ ASSUMPTIONS = [
     "reference interpreter decides which elements are top-level of which instance",
     "django mode + `only`: echo of the owner's id inside fill content is not predicted",
 ]
-BOUNDS = {"quick": {"programs": 12800, "depths": [1, 2, 50, 200], "loop_depths": [1, 50, 700]}, "thorough": {"programs": 200000, "depths": [1, 2, 3, 50, 200, 500, 1000, 2000], "loop_depths": [1, 50, 700, 2000]}}
+BOUNDS = {"quick": {"programs": 12800, "depths": [1, 2, 50, 200], "loop_depths": [1, 50, 700], "widths": [1, 300, 1500]}, "thorough": {"programs": 200000, "depths": [1, 2, 3, 50, 200, 500, 1000, 2000], "loop_depths": [1, 50, 700, 2000], "widths": [1, 300, 1500, 5000, 20000]}}
 CFG = {"elems": True, "idecho": True, "errors": False, "isfilled": False, "max_nodes": 4}
 
 
@@ -255,6 +255,147 @@ def check_reentrant(case, col=None):
     return fails
 
 
+def check_wide(case, col=None):
+    """A list component whose root level is N row components (N pending parent->child hand-overs at once): every row
+    element carries exactly the list's id and its own id; real random ids; ids pairwise distinct."""
+    from django.template import Context, Template
+
+    from django_components import Component, registry
+
+    n = case["width"]
+    fails = []
+    for mode in ("django", "isolated"):
+        env.reset()
+        env.patch_ids(False)
+        try:
+            ids = {}
+            with env.components_settings(context_behavior=mode):
+
+                class Row(Component):
+                    template = '<li data-m="row" data-echo="{{ myid }}">r</li>'
+
+                    def get_context_data(self):
+                        return {"myid": self.id}
+
+                class Lst(Component):
+                    template = '<p data-m="head" data-echo="{{ myid }}">h</p>{% for i in items %}{% component "row" / %}{% endfor %}<p data-m="foot" data-echo="{{ myid }}">f</p>'
+
+                    def get_context_data(self, items=()):
+                        ids["list"] = self.id
+                        return {"items": items, "myid": self.id}
+
+                registry.register("row", Row)
+                registry.register("lst", Lst)
+                try:
+                    out = Template('{% component "lst" items=items / %}').render(Context({"items": range(n)}))
+                except Exception as e:  # noqa
+                    fails.append(("[%s] list of %d root-level row components raised %r" % (mode, n, str(e)[:300]), "c14-wide-exc:" + exc_bucket(e)))
+                    continue
+            elems = parse_real(out)
+            rows = [e for e in elems if e[0] == "row"]
+            if len(rows) != n or len(elems) != n + 2:
+                fails.append(("[%s] width %d: %d row elements / %d marked elements in the output" % (mode, n, len(rows), len(elems)), "c14-wide-elements"))
+                continue
+            bad = [(i, sorted(e[1]), e[2]) for i, e in enumerate(rows) if e[1] != frozenset([ids["list"], e[2]])]
+            if bad:
+                fails.append(("[%s] width %d: %d of the %d root-level rows do not carry exactly {list id %r, own id}; first: row #%d carries %r, own id %r" % (mode, n, len(bad), n, ids["list"], bad[0][0], bad[0][1], bad[0][2]), "c14-wide-ids"))
+            if len({e[2] for e in rows}) != n:
+                fails.append(("[%s] width %d: only %d distinct ids for %d row instances" % (mode, n, len({e[2] for e in rows}), n), "c14-wide-collision"))
+            for e in elems:
+                if e[0] in ("head", "foot") and e[1] != frozenset([ids["list"]]):
+                    fails.append(("[%s] width %d: element %s of the list carries %r, expected only the list id %r" % (mode, n, e[0], sorted(e[1]), ids["list"]), "c14-wide-ids"))
+            if col is not None:
+                col.case(jhash(["wide", n, mode]), n >= 100, sample={"root_level_children": n, "mode": mode} if n >= 100 else None, labels=("wide", "mode:" + mode))
+        finally:
+            env.patch_ids(True)
+    env.reset()
+    return fails
+
+
+def check_caught(case, col=None):
+    """A nested Component.render(context=<the enclosing component's context>) inside get_context_data fails (or not) and
+    the exception is caught by user code; the page goes on: all root elements still carry the right ids."""
+    from django.template import Context, Template
+
+    from django_components import Component, registry
+
+    fails = []
+    where = case.get("where", 0)  # how deep below the page root the catching component sits
+    for mode in ("django", "isolated"):
+        for fail in (False, True, False):
+            env.reset()
+            ids = {}
+            with env.components_settings(context_behavior=mode):
+
+                class Risky(Component):
+                    template = '<b data-m="risky" data-echo="{{ me }}">x</b>'
+
+                    def get_context_data(self, fail=False):
+                        if fail:
+                            raise ValueError("backend is down")
+                        return {"me": self.id}
+
+                class Safe(Component):
+                    template = '<span data-m="safe" data-echo="{{ me }}">{{ inner }}</span>'
+
+                    def get_context_data(self, fail=False):
+                        try:
+                            inner = Risky.render(context=self.input.context, kwargs={"fail": fail}, render_dependencies=False)
+                        except ValueError:
+                            inner = "n/a"
+                        return {"inner": inner, "me": self.id}
+
+                class Box(Component):
+                    template = '<div data-m="box" data-echo="{{ me }}">{% component "safe" fail=fail / %}</div>' if where else '{% component "safe" fail=fail / %}'
+
+                    def get_context_data(self, fail=False):
+                        ids["box"] = self.id
+                        return {"me": self.id, "fail": fail}
+
+                class Footer(Component):
+                    template = '<footer data-m="footer" data-echo="{{ me }}">bye</footer>'
+
+                    def get_context_data(self):
+                        return {"me": self.id}
+
+                class Page(Component):
+                    template = '{% component "box" fail=fail / %}{% component "footer" / %}<i data-m="tail" data-echo="{{ me }}">t</i>'
+
+                    def get_context_data(self, fail=False):
+                        ids["page"] = self.id
+                        return {"fail": fail, "me": self.id}
+
+                for nm, c in (("risky", Risky), ("safe", Safe), ("box", Box), ("footer", Footer), ("page", Page)):
+                    registry.register(nm, c)
+                try:
+                    out = Template('{% component "page" fail=fail / %}').render(Context({"fail": fail}))
+                except Exception as e:  # noqa
+                    fails.append(("[%s] page with a caught nested failure (fail=%r) raised %r" % (mode, fail, str(e)[:300]), "c14-caught-exc:" + exc_bucket(e)))
+                    continue
+            want = {"footer": lambda me: {me, ids["page"]}, "tail": lambda me: {ids["page"]}}
+            if where:
+                want["box"] = lambda me: {me, ids["page"]}
+                want["safe"] = lambda me: {me}
+            else:
+                want["safe"] = lambda me: {me, ids["box"], ids["page"]}
+            got = {e[0]: e for e in parse_real(out)}
+            for mk, f in want.items():
+                if mk not in got:
+                    fails.append(("[%s] fail=%r: element %s missing from %r" % (mode, fail, mk, out[:300]), "c14-caught-elements"))
+                    continue
+                _m, idset, echo = got[mk]
+                me = echo
+                if set(idset) != f(me):
+                    fails.append(("[%s] nested render %s and caught: element <%s> carries %r, expected %r" % (mode, "FAILED" if fail else "succeeded", mk, sorted(idset), sorted(f(me))), "c14-caught-ids"))
+            res = {k: v for k, v in env.registry_sizes().items() if v}
+            if res:
+                fails.append(("[%s] fail=%r: side tables not empty after the render: %r" % (mode, fail, res), "c14-caught-residue"))
+            if col is not None:
+                col.case(jhash(["caught", where, mode, fail]), fail, sample={"family": "caught nested failure", "mode": mode, "catching_component_depth": where} if fail else None, labels=("caught_failure",))
+    env.reset()
+    return fails
+
+
 def attribute(case, message, bucket):
     return None
 
@@ -271,12 +412,21 @@ def plan(tier, seed, scale=1.0):
     for lv in (1, 2, 3):
         for how in (0, 1):
             specs.append({"kind": "reentrant", "levels": lv, "how": how})
+    for w in b["widths"]:
+        specs.append({"kind": "wide", "width": w})
+    for where in (0, 1):
+        specs.append({"kind": "caught", "where": where})
     specs.append({"kind": "randids", "n": max(20, n // 20), "seed": derive_seed(seed, "c14r", 0)})
     return specs
 
 
 def run_shard(spec):
     col = Collector()
+    if spec["kind"] in ("wide", "caught"):
+        case = dict(spec)
+        for m, b in (check_wide if spec["kind"] == "wide" else check_caught)(case, col):
+            col.fail(case, m, b)
+        return col
     if spec["kind"] == "reentrant":
         case = {"kind": "reentrant", "levels": spec["levels"], "how": spec["how"]}
         for m, b in check_reentrant(case, col):
@@ -307,6 +457,10 @@ def replay(case):
         return check_chain(case)
     if case.get("kind") == "reentrant":
         return check_reentrant(case)
+    if case.get("kind") == "wide":
+        return check_wide(case)
+    if case.get("kind") == "caught":
+        return check_caught(case)
     if case.get("random_ids"):
         env.patch_ids(False)
         try:
